@@ -379,7 +379,7 @@ Lemma c11_build_slot_inv : forall o k,
   (forall k' v, c11_slot o k' = Some v -> v = (ob_sys o, ob_metric o)) -> ob_kind o = k ->
   c11_obj_inv (c11_build_slot o k).
 Proof.
-  intros [id kd sy me rc n f e] k H Hk. cbn in Hk. subst kd.
+  intros [id kd nk sy me rc n f e] k H Hk. cbn in Hk. subst kd.
   assert (Hn := H C11Nodes). assert (Hf := H C11Faces). assert (He := H C11Edges).
   cbn in Hn, Hf, He. clear H. unfold c11_obj_inv.
   destruct k; cbn; (split; [apply c11_upd_eq; auto|]); intros k' v Hv; destruct k'; cbn in Hv; auto.
@@ -551,6 +551,51 @@ Proof.
     destruct a; [discriminate|]. destruct d; [discriminate|].
     exists (c11_mk C11KD C11Nodes C11Cartesian C11L2), (c11_mk C11KD C11Faces C11Cartesian C11L2).
     repeat split. unfold c11_reflects. cbn; intros E; discriminate.
+Qed.
+
+(* the element count the handed-back tree validates k against is that of its current kind, after
+   any history (the setter refreshes it whether or not a sub-tree had to be built) *)
+Definition c11_count_inv (c : option c11_obj) : Prop :=
+  match c with None => True | Some o => ob_n o = ob_kind o end.
+
+Lemma c11_build_slot_count : forall o k, ob_n (c11_build_slot o k) = ob_n o /\ ob_kind (c11_build_slot o k) = ob_kind o.
+Proof. intros o k. destruct k; cbn; auto. Qed.
+
+Lemma c11_get_count : forall cf id c r, c11_count_inv c -> ob_n (c11_get cf id c r) = ob_kind (c11_get cf id c r).
+Proof.
+  intros cf id c r H.
+  assert (Hn : ob_n (c11_new_obj id r) = ob_kind (c11_new_obj id r)).
+  { unfold c11_new_obj. destruct (c11_build_slot_count
+      {| ob_id := id; ob_kind := rq_kind r; ob_n := rq_kind r; ob_sys := rq_sys r; ob_metric := rq_metric r;
+         ob_reconstruct := rq_reconstruct r; ob_nodes := None; ob_faces := None; ob_edges := None |} (rq_kind r)) as [-> ->].
+    reflexivity. }
+  destruct c as [o|]; cbn [c11_get]; auto.
+  repeat match goal with |- context [if ?b then _ else _] => destruct b end; auto.
+  unfold c11_set_kind.
+  match goal with |- ob_n (c11_build_slot ?x ?k) = _ => destruct (c11_build_slot_count x k) as [-> ->] end.
+  reflexivity.
+Qed.
+
+Lemma c11_step_count : forall cfb cfk st r, c11_count_inv (st_ball st) -> c11_count_inv (st_kd st) ->
+  let so := c11_step cfb cfk st r in
+  c11_count_inv (st_ball (fst so)) /\ c11_count_inv (st_kd (fst so)) /\ ob_n (snd so) = ob_kind (snd so).
+Proof.
+  intros cfb cfk st r Hb Hk. unfold c11_step. destruct (rq_tree r); cbn [fst snd st_ball st_kd c11_count_inv];
+    repeat split; auto using c11_get_count.
+Qed.
+
+Lemma c11_run_count : forall cfb cfk rs st, c11_count_inv (st_ball st) -> c11_count_inv (st_kd st) ->
+  c11_count_inv (st_ball (c11_run cfb cfk st rs)) /\ c11_count_inv (st_kd (c11_run cfb cfk st rs)).
+Proof.
+  induction rs as [|r rs IH]; intros st Hb Hk; cbn [c11_run]; auto.
+  destruct (c11_step_count cfb cfk st r Hb Hk) as [H1 [H2 _]]. apply IH; auto.
+Qed.
+
+Theorem c11_cache_count : forall cfb cfk rs r,
+  let o := snd (c11_step cfb cfk (c11_run cfb cfk c11_init rs) r) in ob_n o = ob_kind o.
+Proof.
+  intros cfb cfk rs r. destruct (c11_run_count cfb cfk rs c11_init I I) as [Hb Hk].
+  apply (c11_step_count cfb cfk _ r Hb Hk).
 Qed.
 
 (* the configuration regenerated from the current source, decided either way *)
